@@ -255,7 +255,12 @@ def addBlock (nd : Node) (bid parent : Nat) (useMempool : Bool) (hdr : Option (H
         | none => (nd1, "bad-op")
         | some W =>
           match rollForward useMempool nd1 W fork path with
-          | (nd2, some e) => (nd2, "rej:" ++ e)
+          | (nd2, some e) =>
+            -- a failed reorganisation (repair 245caf14): the pool, which followed the executed blocks of the abandoned
+            -- branch, is notified of the unchanged best block again
+            (match findBlk nd2 nd2.best, worldOf nd2 nd2.best with
+             | some bb, some Wb => (notifyPool nd2 bb Wb, "rej:" ++ e)
+             | _, _ => (nd2, "rej:" ++ e))
           | (nd2, none) =>
             -- swapTxMapping: old-branch transactions that are not in the new branch (by carried hash) go back to the pool
             let olds := (main.takeWhile (· != fork)).reverse
